@@ -302,7 +302,7 @@ impl TypedScenario for C04Raw {
     }
     fn budget(&self, tier: Tier) -> usize {
         match tier {
-            Tier::Quick => 4000,
+            Tier::Quick => 12000,
             Tier::Thorough => 1_500_000,
         }
     }
@@ -422,7 +422,7 @@ impl TypedScenario for C04E2E {
     }
     fn budget(&self, tier: Tier) -> usize {
         match tier {
-            Tier::Quick => 1500,
+            Tier::Quick => 4000,
             Tier::Thorough => 500_000,
         }
     }
